@@ -226,15 +226,30 @@ class Ctx:
             else:
                 Q[pos[nz[0][0]]][pos[nz[1][0]]] += c / 2
                 Q[pos[nz[1][0]]][pos[nz[0][0]]] += c / 2
-        self.kernels.append(([self.names[k] for k in used], null_space(Q, n)))
+        self.kernels.append(([self.names[k] for k in used], Q))
+
+    def joint_kernel(self):
+        """(names, basis) of the subspace cut out by ALL recorded constraints Q_k x = 0."""
+        from ..spec import null_space
+        names = []
+        for nm, _ in self.kernels:
+            for x in nm:
+                if x not in names:
+                    names.append(x)
+        rows = []
+        for nm, Q in self.kernels:
+            for r in Q:
+                row = [Fraction(0)] * len(names)
+                for x, v in zip(nm, r):
+                    row[names.index(x)] = v
+                rows.append(row)
+        return names, null_space(rows, len(names))
 
     def vanishes_on_kernels(self, e):
-        """e (field element, linear in the kernel symbols) is zero on the recorded kernel subspace."""
+        """e (field element whose numerator is linear in the kernel symbols) is zero on the recorded kernel subspace."""
         if not self.kernels:
             return False
-        names, basis = self.kernels[-1]
-        if not e.denom.is_ground and any(e.denom.degree(self.gen[n].numer) > 0 if False else False for n in names):
-            return False
+        names, basis = self.joint_kernel()
         num = e.numer
         gens = [self.gen[n].numer for n in names]
         for g in gens:
@@ -250,7 +265,7 @@ class Ctx:
             tot = 0
             for c, x in zip(coefs, v):
                 if x:
-                    tot = tot + c * self.K.ring.domain_new(QQ(x.numerator, x.denominator)) if False else tot + c * QQ(x.numerator, x.denominator)
+                    tot = tot + c * QQ(x.numerator, x.denominator)
             if tot != 0:
                 return False
         return True
